@@ -35,7 +35,7 @@ ASSUMPTIONS = [
 ]
 PARTIAL = [
     'verdict_matches_simples (Brignall-Ruskuc-Vatter): has_finite_simples B <-> Av(B) has finitely many simple permutations is now PROVED in both directions, without hypothesis (Props/C16.lean: verdict_matches_simples, verdict_true_finitely_many_simples, verdict_false_correct, strategy_matches_simples; av_matches_simples for Av(B).has_finitely_many_simples() when the class is not recognised as finite and is_polynomial says no). Direction False => infinitely many simples: special_false_simples_one_parity/_consecutive/_unbounded, pin_false_infinitely_many_simples (strict pin words are proper pin sequences, C16P.pinSeq_of_run; proper pin sequences are almost simple, C16P.classify / pinSeq_simple_sub), verdict_false_simples_consecutive (a simple in one of every two consecutive lengths n, n+1, n >= 6). Direction True => finitely many simples: pinSeq_is_strict_word (every proper pin sequence is the run of a strict pin word), alt_table_is_basis / wedge1_table_is_basis / wedge2_table_is_basis (the generated tables are exactly the bases of the closures of the three families), special_true_excludes_families, pin_true_excludes_pin_sequences, and the unavoidable-substructures theorem of Brignall-Huczynska-Vatter (Combinatorica 2008, Thm 1.4) itself: unavoidable_substructures : Spec.C16.UnavoidableSubstructures, proved in Lemmas/C16Bhv*.lean (right-reaching proper pin sequences with maximality: C16P.max_extreme_reached; tree pigeonhole C16P.tree_branch; separation of converging sequences C16P.conv_sep; Erdos-Szekeres C16P.erdos_szekeres; parallel/wedge alternations C16P.alt_case; wedge permutations of both kinds from a right-reaching sequence started at the apex C16P.wedge_case; identification of the shapes with parAlt/wedge1/wedge2 up to the eight symmetries). Still only evaluated (against brute-force counts of simples up to length 9): the answer True of Av(B).has_finitely_many_simples() when it is caused by is_finite (needs Erdos-Szekeres for classes) or by is_polynomial (input, property C13); the Schmerl-Trotter refinement (simples in EVERY length of one parity / two consecutive lengths) is proved only in the form stated above',
-    "pin_D8_invariant is now PROVED: C14.hasFinitePinperms_act (has_finite_pinperms (B.map g) = has_finite_pinperms B for the eight symmetries) and C14.hasFinitePinperms_class_only (bases with the same avoiders get the same verdict) - these discharge the hypothesis hpin of C16.hasFiniteSimples_act / hasFiniteSimples_class_only for dfa = none (the theorems in Props/C16.lean keep hpin as a hypothesis because Props/C14 imports C16's lemmas, not the other way round)",
+    "pin_D8_invariant is now PROVED: C14.hasFinitePinperms_act (has_finite_pinperms (B.map g) = has_finite_pinperms B for the eight symmetries) and C14.hasFinitePinperms_class_only (bases with the same avoiders get the same verdict) - these discharge the hypothesis hpin of C16.hasFiniteSimples_act / hasFiniteSimples_class_only for dfa = none, and the hypothesis-free statements are PROVED in Props/C16.lean itself (it imports Props/C14; Props/C14 only imports Lemmas/C16Special): C16.hasFiniteSimples_act_all (has_finite_simples (B.map g) = has_finite_simples B for every flag combination, with or without a supplied automaton) and C16.hasFiniteSimples_class_only_all (bases with the same avoiders get the same verdict); C19.strategyApplies_act / C19.findStrategies_sym_full (Props/C19Ext.lean) use them for FinitelyManySimplesStrategy. Nothing of this item is left unproved",
 ]
 TRUSTED = ["is_polynomial (C13) is taken as an input of Av.has_finitely_many_simples"]
 
